@@ -151,6 +151,11 @@ def cases():
             yield dict(name="func-dup-param", d=d, u=d, expect=False, src=render({d: ["func h(a int, a int) {", "}"]}))
             yield dict(name="func-param-shadows-global", d=d, u=d, expect=False, src=render({d: ["func h(g0 int) {", "}"]}))
             yield dict(name="func-falls-off-end", d=d, u=d, expect=False, src=render({d: ["func h(a int) int {", "\tif a > 1 {", "\t\treturn 1", "\t}", "}"]}))
+            yield dict(name="func-empty-body-with-result", d=d, u=d, expect=False, src=render({d: ["func h() int {", "}"]}))
+            yield dict(name="func-comment-body-with-result", d=d, u=d, expect=False, src=render({d: ["func h() int {", "\t// nothing", "}"]}))
+            yield dict(name="func-only-print-with-result", d=d, u=d, expect=False, src=render({d: ["func h() int {", "\tprint(1)", "}"]}))
+            yield dict(name="func-return-then-statement", d=d, u=d, expect=False, src=render({d: ["func h() int {", "\treturn 1", "\tprint(2)", "}"]}))
+            yield dict(name="func-empty-body-no-result", d=d, u=d, expect=True, src=render({d: ["func h() {", "}"]}))
             yield dict(name="func-returns-at-end", d=d, u=d, expect=True, src=render({d: ["func h(a int) int {", "\tif a > 1 {", "\t\treturn 1", "\t}", "\treturn 2", "}"]}))
         # calls of f (defined before slot 9) and g (defined before slot 20)
         yield dict(name="call-f", d=d, u=d, expect=INFO.order[d] >= INFO.order[9], src=render({d: ["print(f(1))"]}))
